@@ -377,6 +377,10 @@ func (ps *sparser) unary() SExpr {
 	if ps.accept("-") {
 		return &SUnary{"-", ps.unary()}
 	}
+	if ps.accept("*") {
+		// only meaningful in type expressions: *T
+		return &SUnary{"*", ps.unary()}
+	}
 	return ps.postfix()
 }
 
